@@ -416,6 +416,7 @@ def build(S):
         S.contract("calcMetric[nonorthogonal]", FN_METRIC, make_metric_run(False, ("centre", "ylow"), must_fail=twin), expected_exceptions=(ValueError,), replay=replay_metric(False), shape="1x1 per location, centre+ylow")
         S.contract("geometry2;calcMetric[orthogonal, cap_Bp_ylow_xpoint]", FN_METRIC, make_metric_run(True, mk.LOCS4, capped=True), expected_exceptions=(ValueError,), shape="1x1 per location, 4 locations; cap stubbed (C06)")
         S.contract("geometry2;calcMetric[nonorthogonal, cap_Bp_ylow_xpoint]", FN_METRIC, make_metric_run(False, ("centre", "ylow"), capped=True), expected_exceptions=(ValueError,), shape="1x1 per location, centre+ylow; cap stubbed (C06)")
+        mk.add_mla_arith(S)
         S.under_contract("hypnotoad.core.mesh:Mesh.geometry")
         for have_rz, sm in ((True, None), (False, None), (True, "smoothnl")):
             S.contract("Mesh.geometry[orchestration, R/Z %s, smoothing=%s]" % ("present" if have_rz else "missing in one region", sm), "hypnotoad.core.mesh:Mesh.geometry", make_orchestration_run(have_rz, sm), expected_exceptions=(ValueError,), shape="three recorder regions")
